@@ -329,44 +329,48 @@ class BehavioralRTLIRToVVisitorL1( bir.BehavioralRTLIRNodeVisitor ):
       return value
 
     template = "{{ {{ {padded_nbits} {{ {value}[{last_bit}] }} }}, {value} }}"
-
-    # The text of a compound expression cannot be indexed (`a + b[3]` selects
-    # a bit of b): its sign bit is set iff its value is >= 2**last_bit.
-    if isinstance( node.value, ( bir.IfExp, bir.UnaryOp, bir.BinOp, bir.Compare ) ):
-      sign_bit = f"( {value} ) >= {current_nbits}'d{2**last_bit}"
-      return f"{{ {{ {padded_nbits} {{ {sign_bit} }} }}, {value} }}"
     one_bit_template = "{{ {{ {padded_nbits} {{ {_value} }} }}, {value} }}"
 
-    # Check if the signal to be extended is a bit selection or one-bit part
-    # selection.
-    if isinstance( node.value, bir.Slice ):
-      try:
-        lower = node.value.lower._value
-        upper = node.value.upper._value
-        if upper - lower == 1:
-          _one_bit = True
-        else:
-          _one_bit = False
-      except AttributeError:
-        _one_bit = False
-
-      # Manipulate the slicing string to avoid indexing on a sliced signal
-      if not _one_bit:
-        l, col, r = value.rfind('['), value.rfind(':'), value.rfind(']')
-        if -1 < l < col < r:
-          _value = value[:col] + ']'
-          return one_bit_template.format( **locals() )
-
+    # Only the text of a signal can be bit-selected: a signal or struct field
+    # ( `x[3]`, `p.a[3]` ), an explicitly sized temporary variable, an
+    # element of a list of signals ( `arr[1][3]` ) or a slice with constant
+    # bounds ( `x[7:4]` -> `x[7]` ).
+    if isinstance( node.value, bir.Attribute ):
+      _selectable = not isinstance( node.value.Type, rt.Const )
+    elif isinstance( node.value, bir.TmpVar ):
+      _selectable = node.value._is_explicit
     elif isinstance( node.value, bir.Index ):
-      _one_bit = True
+      _selectable = True
+    elif isinstance( node.value, bir.Slice ):
+      _selectable = hasattr( node.value.lower, '_value' ) and \
+                    hasattr( node.value.upper, '_value' )
     else:
-      _one_bit = False
+      _selectable = False
 
-    if _one_bit:
+    # A one-bit value is its own sign bit: a bit selection `x[i]`, a one-bit
+    # part selection `x[3:3]` ( Verilator throws an error at in_[31:31][0] )
+    # or a one-bit expression.
+    if current_nbits == 1 and \
+       not isinstance( node.value, ( bir.Attribute, bir.TmpVar ) ):
       _value = value
       return one_bit_template.format( **locals() )
-    else:
-      return template.format( **locals() )
+
+    # The text of any other expression cannot be indexed (`a + b[3]` selects
+    # a bit of b; `4'(a)[3]`, `( | a )[0]` and `a[b +]` are not even valid
+    # SystemVerilog): its sign bit is set iff its value is >= 2**last_bit.
+    if not _selectable:
+      sign_bit = f"( {value} ) >= {current_nbits}'d{2**last_bit}"
+      return f"{{ {{ {padded_nbits} {{ {sign_bit} }} }}, {value} }}"
+
+    # Manipulate the slicing string to avoid indexing on a sliced signal
+    # ( Verilator throws an error at in_[31:24][7] ): in_[31:24] -> in_[31]
+    if isinstance( node.value, bir.Slice ):
+      l, col, r = value.rfind('['), value.rfind(':'), value.rfind(']')
+      if -1 < l < col < r:
+        _value = value[:col] + ']'
+        return one_bit_template.format( **locals() )
+
+    return template.format( **locals() )
 
   #-----------------------------------------------------------------------
   # visit_Truncate
